@@ -30,12 +30,28 @@ func TestGovcReplay(t *testing.T) {
 		{"bundled unknown letters appear once", "pairs.once", func(o *GetOpt) { o.SetMode(Bundling); o.SetUnknownMode(Pass) }, []string{"-xy", "z"}, []string{"-xy", "z"}, false},
 		{"optional value does not swallow terminator", "max.take", func(o *GetOpt) { o.StringOptional("so", "def") }, []string{"--so", "--", "x"}, []string{"x"}, false},
 		{"multi value does not swallow terminator", "max.take", func(o *GetOpt) { o.StringSlice("ss", 1, 3) }, []string{"--ss", "a", "--", "x"}, []string{"x"}, false},
+		{"int optional value does not swallow terminator", "max.take|pair.optional", func(o *GetOpt) { o.IntOptional("io", 7) }, []string{"--io", "--", "x"}, []string{"x"}, false},
+		{"float optional value does not swallow terminator", "max.take|pair.optional", func(o *GetOpt) { o.Float64Optional("fo", 1.5) }, []string{"--fo", "--", "x"}, []string{"x"}, false},
+		{"string optional value does not swallow terminator", "pair.optional", func(o *GetOpt) { o.StringOptional("so", "def") }, []string{"--so", "--", "x"}, []string{"x"}, false},
+		{"int slice does not swallow terminator", "max.take", func(o *GetOpt) { o.IntSlice("is", 1, 3) }, []string{"--is", "1", "--", "2"}, []string{"2"}, false},
+		{"float slice does not swallow terminator", "max.take", func(o *GetOpt) { o.Float64Slice("fs", 1, 3) }, []string{"--fs", "1.5", "--", "2"}, []string{"2"}, false},
+		{"map does not swallow terminator", "max.take", func(o *GetOpt) { o.StringMap("m", 1, 3) }, []string{"--m", "k=v", "--", "a=b"}, []string{"a=b"}, false},
+		{"require order stops at a bundle with an unknown letter", "pair.unknown.stop", func(o *GetOpt) { o.SetMode(Bundling); o.SetUnknownMode(Pass); o.SetRequireOrder(); o.Bool("a", false); o.Bool("known", false) },
+			[]string{"-xa", "--known", "z"}, []string{"-xa", "--known", "z"}, false},
+		{"require order stops at an unknown option", "pair.unknown.stop", func(o *GetOpt) { o.SetUnknownMode(Pass); o.SetRequireOrder(); o.Bool("known", false) },
+			[]string{"--unk", "--known", "z"}, []string{"--unk", "--known", "z"}, false},
 		{"terminator ends parsing", "term.stops", func(o *GetOpt) { o.Bool("flag", false) }, []string{"a", "--", "--flag", "b"}, []string{"a", "--flag", "b"}, false},
 		{"require order stops at first positional", "text.stop", func(o *GetOpt) { o.Bool("flag", false); o.SetRequireOrder() }, []string{"a", "--flag"}, []string{"a", "--flag"}, false},
 	}
 	ran := 0
 	for _, c := range cases {
-		if !strings.HasPrefix(obl, c.obl) && !strings.Contains(obl, c.obl) {
+		match := false
+		for _, fam := range strings.Split(c.obl, "|") {
+			if strings.Contains(obl, fam) {
+				match = true
+			}
+		}
+		if !match {
 			continue
 		}
 		ran++
